@@ -89,6 +89,7 @@ def topUp (s : State κ τ) (e : Env) (n : Nat) : Nat → Except PyErr (State κ
 /-- `_reschedule` -/
 def reschedule (s : State κ τ) (e : Env) (n : Nat) : Except PyErr (State κ τ × Env) :=
   if e.flags.shuttingDown n then .ok (s, e)
+  else if !s.registered.contains n then .ok (s, e)     -- still collecting (loadscope.py:329-331)
   else if s.workqueue.isEmpty then .ok (s, e.shutdown n)
   else do
     let w ← s.assigned.get n
